@@ -205,8 +205,9 @@ theorem step_phase {p p' : Pool} {op : Op} (hp : PoolWF p) (hs : PoolSmall p) (h
     obtain ⟨res, ca, x, g1, g2, h4, rfl⟩ := bin_inv h
     have h4' := h4
     unfold glweNegate at h4'
-    obtain ⟨_, h4'⟩ := check_ok h4'; obtain ⟨_, h4'⟩ := check_ok h4'; obtain ⟨c3, _⟩ := check_ok h4'
-    obtain ⟨r', e, _, w, sz, ph⟩ := negate_ok (hp r _ g1) (hp a _ g2) (hs a _ g2) (by simpa using c3)
+    obtain ⟨_, h4'⟩ := check_ok h4'; obtain ⟨_, h4'⟩ := check_ok h4'; obtain ⟨cb, h4'⟩ := check_ok h4'
+    obtain ⟨c3, _⟩ := check_ok h4'
+    obtain ⟨r', e, _, w, sz, ph⟩ := negate_ok (hp r _ g1) (hp a _ g2) (hs a _ g2) (by simpa using cb) (by simpa using c3)
     exact finish_step hp g1 h4 e w sz (fun s i => by
       simp only [specStep, phaseAt_of g2, sizeAt_of g1, ph s])
   case negateAssign r =>
@@ -217,16 +218,18 @@ theorem step_phase {p p' : Pool} {op : Op} (hp : PoolWF p) (hs : PoolSmall p) (h
     obtain ⟨res, ca, x, g1, g2, h4, rfl⟩ := bin_inv h
     have h4' := h4
     unfold glweCopy at h4'
-    obtain ⟨_, h4'⟩ := check_ok h4'; obtain ⟨_, h4'⟩ := check_ok h4'; obtain ⟨c3, _⟩ := check_ok h4'
-    obtain ⟨r', e, _, w, sz, ph⟩ := copy_ok (hp r _ g1) (hp a _ g2) c3
+    obtain ⟨_, h4'⟩ := check_ok h4'; obtain ⟨_, h4'⟩ := check_ok h4'; obtain ⟨cb, h4'⟩ := check_ok h4'
+    obtain ⟨c3, _⟩ := check_ok h4'
+    obtain ⟨r', e, _, w, sz, ph⟩ := copy_ok (hp r _ g1) (hp a _ g2) (by simpa using cb) c3
     exact finish_step hp g1 h4 e w sz (fun s i => by
       simp only [specStep, phaseAt_of g2, sizeAt_of g1, ph s])
   case rotate k r a =>
     obtain ⟨res, ca, x, g1, g2, h4, rfl⟩ := bin_inv h
     have h4' := h4
     unfold glweRotate at h4'
-    obtain ⟨_, h4'⟩ := check_ok h4'; obtain ⟨_, h4'⟩ := check_ok h4'; obtain ⟨c3, _⟩ := check_ok h4'
-    obtain ⟨r', e, _, w, sz, ph⟩ := rotate_ok k (hp r _ g1) (hp a _ g2) (hs a _ g2) c3
+    obtain ⟨_, h4'⟩ := check_ok h4'; obtain ⟨_, h4'⟩ := check_ok h4'; obtain ⟨cb, h4'⟩ := check_ok h4'
+    obtain ⟨c3, _⟩ := check_ok h4'
+    obtain ⟨r', e, _, w, sz, ph⟩ := rotate_ok k (hp r _ g1) (hp a _ g2) (hs a _ g2) (by simpa using cb) c3
     exact finish_step hp g1 h4 e w sz (fun s i => by
       simp only [specStep, phaseAt_of g2, sizeAt_of g1, ph s])
   case rotateAssign k r =>
@@ -237,8 +240,9 @@ theorem step_phase {p p' : Pool} {op : Op} (hp : PoolWF p) (hs : PoolSmall p) (h
     obtain ⟨res, ca, x, g1, g2, h4, rfl⟩ := bin_inv h
     have h4' := h4
     unfold glweMulXpMinusOne at h4'
-    obtain ⟨_, h4'⟩ := check_ok h4'; obtain ⟨_, h4'⟩ := check_ok h4'; obtain ⟨c3, _⟩ := check_ok h4'
-    obtain ⟨r', e, _, w, sz, ph⟩ := mulXpMinusOne_ok k (hp r _ g1) (hp a _ g2) (hs a _ g2) (by simpa using c3)
+    obtain ⟨_, h4'⟩ := check_ok h4'; obtain ⟨_, h4'⟩ := check_ok h4'; obtain ⟨cb, h4'⟩ := check_ok h4'
+    obtain ⟨c3, _⟩ := check_ok h4'
+    obtain ⟨r', e, _, w, sz, ph⟩ := mulXpMinusOne_ok k (hp r _ g1) (hp a _ g2) (hs a _ g2) (by simpa using cb) (by simpa using c3)
     exact finish_step hp g1 h4 e w sz (fun s i => by
       simp only [specStep, phaseAt_of g2, sizeAt_of g1, ph s])
   case mulXpMinusOneAssign k r =>
